@@ -16,6 +16,11 @@ Proof.
   destruct (sarg_val s (AValOf y i)) eqn:E; [reflexivity | exact E].
 Qed.
 
+Lemma sarg_vals_dealias s args : sarg_vals s (map (dealias_val s) args) = sarg_vals s args.
+Proof.
+  induction args as [|a r IH]; cbn [map sarg_vals]; [reflexivity|]. rewrite sarg_val_dealias, IH. reflexivity.
+Qed.
+
 (* ---- set_at algebra ---- *)
 Lemma set_set_same {A} (l : list A) x u v : set_at x v (set_at x u l) = set_at x v l.
 Proof. revert x; induction l as [|h t IH]; intros [|x]; cbn [set_at]; auto. f_equal. apply IH. Qed.
@@ -135,6 +140,11 @@ Proof.
   - (* OResize *) cbn [spec_run spec_step]. rewrite sarg_val_dealias. reflexivity.
   - (* OAppendRange *) destruct (Nat.eqb_spec x y) as [->|NE]; [|reflexivity].
     apply dealias_appendrange_self; auto. intro Q. apply NM. cbn [mentions]. left. auto.
+  - (* OFind *) destruct (sget s x) as [[k l]|] eqn:G; [|reflexivity].
+    cbn [spec_run spec_step]. rewrite G.
+    destruct (has_key k); [rewrite sarg_key_dealias | rewrite sarg_val_dealias]; reflexivity.
+  - (* OEmplace *) cbn [spec_run spec_step]. rewrite sarg_vals_dealias, map_length. reflexivity.
+  - (* OInsHint *) cbn [spec_run spec_step]. rewrite sarg_key_dealias, sarg_val_dealias. reflexivity.
 Qed.
 
 (* ---- histories ---- *)
